@@ -185,6 +185,14 @@ func init() {
 	isolate.Register("dec", func(p []byte) (string, error) {
 		workerInit()
 		r, b := decode(p)
+		return decideCase(r, b)
+	})
+}
+
+// decideCase runs one entry point on the given blobs (worker side; also the body of the native fuzz
+// targets, which run it in-process).
+func decideCase(r req, b [][]byte) (string, error) {
+	{
 		ctx := context.Background()
 		var err error
 		switch r.Entry {
@@ -352,7 +360,7 @@ func init() {
 			return "", fmt.Errorf("harness: unknown entry %q", r.Entry)
 		}
 		return errClass(err), err
-	})
+	}
 }
 
 func TestMain(m *testing.M) {
@@ -415,8 +423,8 @@ func genGolden(t *rapid.T) (*epb.VMGoldenMeasurement, []string) {
 		case 1:
 			g.SevSnp.Measurements[1] = nil
 			g.SevSnp.Measurements[2] = []byte{1, 2, 3}
-		case 2:
-			g.SevSnp.CaBundle = []byte("-----BEGIN CERTIFICATE-----\nAAAA\n-----END CERTIFICATE-----\n-----BEGIN X-----\n")
+		case 2, 4:
+			g.SevSnp.CaBundle = genCaBundle(t)
 		case 3:
 			g.SevSnp.SvsmMeasurement = snpMeas
 		}
@@ -433,6 +441,27 @@ func genGolden(t *rapid.T) (*epb.VMGoldenMeasurement, []string) {
 		}
 	}
 	return g, absent
+}
+
+// genCaBundle concatenates 0-4 drawn pieces: well-formed CERTIFICATE blocks, blocks of another type,
+// a block cut short, free text, blank lines. Policy derivation walks the bundle block by block, so
+// every position (identity key, author key, whatever follows) sees every kind of piece.
+func genCaBundle(t *rapid.T) []byte {
+	pieces := []string{
+		"-----BEGIN CERTIFICATE-----\nAAAA\n-----END CERTIFICATE-----\n",
+		"-----BEGIN CERTIFICATE-----\nQUJDRA==\n-----END CERTIFICATE-----\n",
+		"-----BEGIN X-----\nAAAA\n-----END X-----\n",
+		"-----BEGIN CERTIFICATE-----\nAAAA\n",
+		"-----BEGIN X-----\n",
+		"\n",
+		"garbage",
+		"-----BEGIN CERTIFICATE-----\nAA!A\n-----END CERTIFICATE-----\n",
+	}
+	var out []byte
+	for _, i := range rapid.SliceOfN(rapid.IntRange(0, len(pieces)-1), 0, 4).Draw(t, "caBundlePieces") {
+		out = append(out, pieces[i]...)
+	}
+	return out
 }
 
 // genEndorsement renders a (possibly partial) endorsement and then mutates bytes.
@@ -871,6 +900,50 @@ func TestEndorsementDecoders(t *testing.T) {
 			r.Str = rapid.SampledFrom(inspectPaths).Draw(t, "path")
 		}
 		runCase(t, name, r, cls, e)
+	})
+}
+
+// Policy derivation walks the SEV-SNP CA bundle of a (still unverified) endorsement block by block;
+// the bundle shapes get their own generator because the generic one reaches a given shape at a given
+// position only once in thousands of cases.
+func TestPolicyDerivationBundles(t *testing.T) {
+	const name = "policy-derivation/ca-bundle"
+	ev.Rule(name, "complete endorsement (all sections present, measurements for 2 and 4 VMSAs, base policy) whose sev_snp.ca_bundle is k in 0..4 well-formed CERTIFICATE blocks followed by 0-2 drawn tail pieces {block of another type, block cut short, header only, blank line, free text, block with bad base64, further valid block}; entries SevPolicy (all flag combinations, VMSA counts 0/2/4/9), the `sev policy` command and SevValidate over a genuine attestation carrying it; oracle: value or error, no panic / death / watchdog / allocation budget; non-trivial = bundle non-empty; distinct = (entry, options, bundle shape)")
+	checks(ev.Scale(600, 6000))
+	valid := []string{"-----BEGIN CERTIFICATE-----\nAAAA\n-----END CERTIFICATE-----\n", "-----BEGIN CERTIFICATE-----\nQUJDRA==\n-----END CERTIFICATE-----\n"}
+	tails := []string{"-----BEGIN X-----\nAAAA\n-----END X-----\n", "-----BEGIN CERTIFICATE-----\nAAAA\n", "-----BEGIN X-----\n", "\n", "garbage", "-----BEGIN CERTIFICATE-----\nAA!A\n-----END CERTIFICATE-----\n", " ", "-----END CERTIFICATE-----\n"}
+	if theSignCert == nil {
+		theSignCert = signCert()
+	}
+	rapid.Check(t, func(t *rapid.T) {
+		k := rapid.IntRange(0, 4).Draw(t, "validBlocks")
+		var bundle []byte
+		shape := fmt.Sprintf("%dv", k)
+		for i := 0; i < k; i++ {
+			bundle = append(bundle, valid[rapid.IntRange(0, 1).Draw(t, "which")]...)
+		}
+		for _, ti := range rapid.SliceOfN(rapid.IntRange(0, len(tails)-1), 0, 2).Draw(t, "tail") {
+			bundle = append(bundle, tails[ti]...)
+			shape += fmt.Sprintf("+t%d", ti)
+		}
+		g := &epb.VMGoldenMeasurement{Timestamp: timestamppb.New(t0), ClSpec: 1, Digest: make([]byte, 48),
+			SevSnp: &epb.VMSevSnp{Svn: 1, Measurements: map[uint32][]byte{2: snpMeas, 4: bytes.Repeat([]byte{1}, 48)}, Policy: 0x70000, FamilyId: make([]byte, 16), ImageId: make([]byte, 16), CaBundle: bundle},
+			Tdx:    &epb.VMTdx{Measurements: []*epb.VMTdx_Measurement{{RamGib: 16, Mrtd: mrtd}}}}
+		eb, _ := proto.Marshal(pki.Endorse(g, theSignCert.Raw, pki.Key(1)))
+		r := req{Entry: rapid.SampledFrom([]string{"SevPolicy", "SevPolicy", "cli", "SevValidate"}).Draw(t, "entry")}
+		blobs := [][]byte{eb}
+		switch r.Entry {
+		case "SevPolicy":
+			r.Opt = rapid.IntRange(0, 3).Draw(t, "flags") + 4*rapid.SampledFrom([]int{0, 2, 4, 9}).Draw(t, "vmsas")
+		case "cli":
+			r.Opt = 3
+			blobs = append(blobs, nil)
+		case "SevValidate":
+			r.Opt = 4 * rapid.SampledFrom([]int{0, 2}).Draw(t, "vmsas")
+			a, _ := proto.Marshal(attest.SnpAttestation(snpMeas, nil))
+			blobs = [][]byte{a, eb}
+		}
+		runCase(t, name, r, "bundle/"+shape, blobs...)
 	})
 }
 
